@@ -102,6 +102,19 @@ func (p *Path) intrinsic(caller *frame, fn *ssa.Function, name string, args []Va
 			return smt.ConstBool(rx.re.MatchString(s.c)), true
 		}
 		return p.rxMatch(rx, s.bytesOrAbort(p), false, false), true
+	case "(*regexp.Regexp).FindStringIndex":
+		rx := args[0].(*RxVal)
+		loc := rx.re.FindStringIndex(p.strArg(args[1], "regexp subject (FindStringIndex is only supported on concrete subjects)"))
+		if loc == nil {
+			return []Value(nil), true
+		}
+		return []Value{intConst(int64(loc[0])), intConst(int64(loc[1]))}, true
+	case "(*regexp.Regexp).FindString":
+		rx := args[0].(*RxVal)
+		return mkStr(rx.re.FindString(p.strArg(args[1], "regexp subject (FindString is only supported on concrete subjects)"))), true
+	case "(*regexp.Regexp).Longest":
+		args[0].(*RxVal).re.Longest()
+		return nil, true
 	case "(*regexp.Regexp).String":
 		return mkStr(args[0].(*RxVal).src), true
 	case "(*strings.Builder).copyCheck":
